@@ -102,6 +102,7 @@ func c12Case(kind string, p, t *ref.T) core.Verdict {
 }
 
 func checkC12(c *core.Ctx) {
+	defer specialReuse(c, "loss", false)
 	defer sweepC12(c)
 	defer scalingCases(c, "MSE")
 	defer selfCases(c, false, "loss")
@@ -341,6 +342,7 @@ func shortT(t *ref.T) string {
 }
 
 func checkC14(c *core.Ctx) {
+	defer specialReuse(c, "act", false)
 	defer sweepC14(c)
 	defer scalingCases(c, "Relu", "LeakyRelu")
 	defer soakC14(c)
